@@ -111,6 +111,7 @@ struct C06 : Scenario {
 				Op e; e.kind = "extract"; e.arg = 1; e.mon = rng.chance(1, 3); t.ops.push_back(e);
 			}
 			p.tasks.push_back(t);
+			gen_fault(rng, p);
 			return p;
 		}
 		// invocation
@@ -205,7 +206,16 @@ struct C06 : Scenario {
 			s += "n\nn\nn\nn\nn\nn\nn\nn\nn\nn\nn\nn\nn\nn\nn\nn\n";
 			p.stdin_script = s;
 		}
+		gen_fault(rng, p);
 		return p;
+	}
+	// F-SYSCALL: one system call of the extraction fails once.  The entry it was made for (and what lies below it) may come
+	// out differently or not at all; every other entry is still held to the archive exactly.
+	static void gen_fault(Rng &rng, Plan &p) {
+		if (!rng.chance(1, 6)) return;
+		static const char *calls[] = {"mkdir", "open", "unlink", "symlink", "chmod", "chown", "fchmod", "fchown", "utime", "fdopen", "mkdir", "open"};
+		static const int errs[] = {EACCES, ENOSPC, EIO, EPERM, ENOENT, EEXIST, EROFS, ENOMEM, ELOOP, ENAMETOOLONG, EINTR, EMFILE, ENOTDIR, EISDIR};
+		p.sets("fsfaults", strf("%s:%d:%d", calls[rng.below(12)], (int) rng.below(6), errs[rng.below(14)]));
 	}
 
 	// ---- reference extractor -------------------------------------------------
@@ -368,11 +378,49 @@ struct C06 : Scenario {
 		return M;
 	}
 
+	// paths excused by an injected fault: the object the failing call was made for, by the name the tool used and by
+	// where that name resolves
+	static std::vector<std::string> excused_paths(SimFS &fs, const std::string &cwd) {
+		std::vector<std::string> ex;
+		auto lexical = [&](const std::string &path) {
+			std::string abs = (!path.empty() && path[0] == '/') ? path : cwd + "/" + path;
+			std::vector<std::string> parts;
+			size_t i = 0;
+			while (i < abs.size()) {
+				size_t j = abs.find('/', i);
+				if (j == std::string::npos) j = abs.size();
+				std::string c = abs.substr(i, j - i);
+				if (c == "..") { if (!parts.empty()) parts.pop_back(); }
+				else if (!c.empty() && c != ".") parts.push_back(c);
+				i = j + 1;
+			}
+			std::string out;
+			for (auto &c : parts) out += "/" + c;
+			return out;
+		};
+		for (auto &l : fs.log) {
+			if (!l.injected) continue;
+			if (!l.path.empty()) ex.push_back(lexical(l.path));
+			if (l.parent >= 0 && !l.name.empty()) ex.push_back(fs.path_of(l.parent) + "/" + l.name);
+			if (l.ino >= 0) ex.push_back(fs.path_of(l.ino));
+		}
+		return ex;
+	}
+	static bool excused(const std::vector<std::string> &ex, const std::string &path) {
+		for (auto &e : ex) {
+			if (e.empty()) continue;
+			if (path == e || (path.size() > e.size() && path.compare(0, e.size(), e) == 0 && path[e.size()] == '/')) return true;
+		}
+		return false;
+	}
+
 	bool compare(const Model &M, SimFS &fs, RunResult &res, const std::string &ctx) {
 		std::string cwd = "/w/x/y/root";
+		std::vector<std::string> ex = excused_paths(fs, cwd);
 		// everything on disk must be expected
 		std::function<bool(int, const std::string &)> walk = [&](int ino, const std::string &path) -> bool {
 			const Inode &n = fs.nodes[ino];
+			if (excused(ex, path)) return true;
 			if (path != cwd) {
 				auto it = M.tree.find(path);
 				if (it == M.tree.end()) {
@@ -386,6 +434,7 @@ struct C06 : Scenario {
 		if (!walk(fs.lookup(cwd), cwd)) return false;
 		for (auto &e : M.tree) {
 			const MNode &m = e.second;
+			if (excused(ex, e.first)) continue;
 			int ino = fs.lookup(e.first, false);
 			if (ino < 0) { res.fail("C06.missing", std::string("missing:") + m.type, ctx + ": " + e.first + " is missing after extraction"); return false; }
 			const Inode &n = fs.nodes[ino];
@@ -452,7 +501,9 @@ struct C06 : Scenario {
 					res.fail("C06.print_touches_fs", "print_fs", ctx + ": the print command changed the filesystem");
 			} else {
 				compare(M, env.fs, res, ctx);
-				if (res.ok && !M.has_unsafe && (r.status != 0 || r.exited))
+				bool faulted = false;
+				for (auto &l : env.fs.log) if (l.injected) faulted = true;
+				if (res.ok && !M.has_unsafe && !faulted && (r.status != 0 || r.exited))
 					res.fail("C06.exit_status", "exit", ctx + strf(": exit status %d%s although everything selected could be extracted\nstderr: %s", r.status, r.exited ? " (via exit())" : "", printable(r.err).c_str()));
 			}
 			size_t bad;
@@ -482,6 +533,7 @@ struct C06 : Scenario {
 		if (M.has_unsafe) count("probe.unsafe_symlink_in_tree");
 		for (auto &m : p.members) if (m.mac) { count("probe.macbinary_member"); break; }
 		for (auto &l : env.fs.log) if (l.err == EACCES || l.err == EPERM) { count("fault.F-PERM"); break; }
+		for (auto &l : env.fs.log) if (l.injected) { count("fault.F-SYSCALL." + l.op); break; }
 		res.trace = finish_trace();
 		return res;
 	}
